@@ -74,6 +74,8 @@ pub struct Tree {
     pub files: Vec<(String, Vec<u8>)>,
     pub dirs: Vec<String>,
     by_content: HashMap<Vec<u8>, String>,
+    /// named pipes under root (relative paths)
+    pub fifos: Vec<String>,
 }
 
 fn write_file(p: &Path, content: &[u8]) {
@@ -170,8 +172,19 @@ pub fn build_tree(work: &str, seed: u64, variant: u64) -> Tree {
     for (rel, _) in &files {
         write_file(&base.join("otherhost").join(rel), format!("{}-5 other host's {}", CANARY, rel).as_bytes());
     }
+    // named pipes inside the root: they are located inside the directory but are not regular files
+    let mut fifos = Vec::new();
+    for rel in ["pipe.fifo", "sub/queue.txt"] {
+        extern "C" {
+            fn mkfifo(path: *const std::os::raw::c_char, mode: u32) -> i32;
+        }
+        let c = std::ffi::CString::new(root.join(rel).to_str().unwrap()).unwrap();
+        if unsafe { mkfifo(c.as_ptr(), 0o644) } == 0 {
+            fifos.push(rel.to_string());
+        }
+    }
     let by_content = files.iter().map(|(p, c)| (c.clone(), p.clone())).collect();
-    Tree { base, root, files, dirs: dnames, by_content }
+    Tree { base, root, files, dirs: dnames, by_content, fifos }
 }
 
 fn pct_encode_path(rel: &str, all: bool) -> String {
@@ -281,7 +294,12 @@ fn expect_for(t: &Tree, h: Handler, rest: &str) -> Expect {
     }
 }
 
+/// What the pipe feeder writes into a named pipe as soon as somebody opens it for reading.
+pub const PIPE_DATA: &[u8] = b"HV-PIPE-DATA: this came out of a named pipe, not out of a regular file";
+
 pub struct Lab {
+    feeder_stop: std::sync::Arc<std::sync::atomic::AtomicBool>,
+    feeder: Option<std::thread::JoinHandle<u64>>,
     pub tree: Tree,
     call: CallFn,
     /// signature prefix: "" for the threaded runtime, "tokio:" for the tokio one
@@ -296,12 +314,42 @@ impl Lab {
         let root_plain: &'static str = Box::leak(tree.root.to_str().unwrap().to_string().into_boxed_str());
         let root_slash: &'static str = Box::leak(format!("{}/", root_plain).into_boxed_str());
         let root_used = if variant % 2 == 0 { root_plain } else { root_slash };
-        Lab { tree, call: bind(root_used), sig, root_used }
+        // pipe feeder: a handler that opens a named pipe for reading would block until a writer appears; this thread
+        // is that writer (non-blocking open succeeds only while a reader has the pipe open), so that a handler which
+        // serves a pipe returns PIPE_DATA instead of wedging the run. It counts how often a reader appeared.
+        let feeder_stop = std::sync::Arc::new(std::sync::atomic::AtomicBool::new(false));
+        let (stop2, paths) = (feeder_stop.clone(), tree.fifos.iter().map(|f| tree.root.join(f)).collect::<Vec<_>>());
+        let feeder = std::thread::spawn(move || {
+            use std::io::Write;
+            use std::os::unix::fs::OpenOptionsExt;
+            let mut fed = 0u64;
+            while !stop2.load(std::sync::atomic::Ordering::SeqCst) {
+                for p in &paths {
+                    if let Ok(mut f) = std::fs::OpenOptions::new().write(true).custom_flags(0o4000 /* O_NONBLOCK */).open(p) {
+                        let _ = f.write_all(PIPE_DATA);
+                        fed += 1;
+                    }
+                }
+                std::thread::sleep(std::time::Duration::from_millis(2));
+            }
+            fed
+        });
+        Lab { feeder_stop, feeder: Some(feeder), tree, call: bind(root_used), sig, root_used }
+    }
+
+    /// how many times a reader opened one of the named pipes of the tree
+    pub fn pipes_opened(&mut self) -> u64 {
+        self.feeder_stop.store(true, std::sync::atomic::Ordering::SeqCst);
+        self.feeder.take().and_then(|h| h.join().ok()).unwrap_or(0)
     }
 }
 
 impl Drop for Lab {
     fn drop(&mut self) {
+        self.feeder_stop.store(true, std::sync::atomic::Ordering::SeqCst);
+        if let Some(h) = self.feeder.take() {
+            let _ = h.join();
+        }
         let _ = std::fs::remove_dir_all(&self.tree.base);
     }
 }
@@ -425,7 +473,7 @@ pub fn run(args: &Args, handlers: &'static [Handler], bind: fn(&'static str) -> 
     let depth = if thorough { 4 } else { 3 };
     let reports = par(ncpu(), move |shard, nsh| {
         let mut r = Report::new();
-        let lab = Lab::new(&work, seed, shard as u64, bind, sig);
+        let mut lab = Lab::new(&work, seed, shard as u64, bind, sig);
         let mut rng = Rng::derive(seed, 0x0660 + shard as u64);
         let routes = ["/*", "/static/*", "/static*", "/files/x*"];
         // (1) availability: every file and directory under the root, raw-safe and fully encoded spellings
@@ -453,6 +501,24 @@ pub fn run(args: &Args, handlers: &'static [Handler], bind: fn(&'static str) -> 
                 }
             }
             r.nontrivial(fnv(rel.as_bytes()) ^ shard as u64);
+        }
+        // named pipes inside the root: not regular files, so never served (and never opened: see the feeder)
+        for rel in lab.tree.fifos.clone() {
+            for &h in handlers {
+                for route in ["/*", "/static/*"] {
+                    if h == Handler::ServeAsFilePath && route != "/*" {
+                        continue;
+                    }
+                    let lead = if route_prefix(route).ends_with('/') { "" } else { "/" };
+                    for cache in [false, true] {
+                        if cache && h != Handler::Directory {
+                            continue;
+                        }
+                        check(&mut r, &lab, h, route, &format!("{}{}", lead, rel), cache, "named-pipe");
+                        r.count("named_pipe_requests", 1);
+                    }
+                }
+            }
         }
         for d in lab.tree.dirs.clone() {
             for &h in handlers.iter().filter(|h| **h != Handler::ServeAsFilePath) {
@@ -521,6 +587,8 @@ pub fn run(args: &Args, handlers: &'static [Handler], bind: fn(&'static str) -> 
             check(&mut r, &lab, h, route, &format!("{}{}", lead, path), rng.chance(1, 2), "random-depth-4..6");
             r.count("random_deep_requests", 1);
         }
+        r.count("named_pipes_in_trees", lab.tree.fifos.len() as u64);
+        r.count("named_pipes_opened_by_a_handler", lab.pipes_opened());
         r
     });
     let total = Report::merge_all(reports);
